@@ -70,11 +70,15 @@ def _get_tag_text(tag: Element) -> str:
     return ''
 
 
+# marks "no explicit ID given: read it from the XML" (an explicit None is a blank ID)
+_FROM_XML = object()
+
+
 class MosElement:
     """
     Abstract base class for MOS elements
     """
-    def __init__(self, xml: Element, *, id: Optional[str] = None, slug: Optional[str] = None):
+    def __init__(self, xml: Element, *, id: Optional[str] = _FROM_XML, slug: Optional[str] = None):
         self._xml = xml
         self._id = id
         self._slug = slug
@@ -106,7 +110,7 @@ class MosElement:
         """
         The element ID (if present in the XML)
         """
-        if self._id is None:
+        if self._id is _FROM_XML:
             try:
                 self._id = self.xml.find(self._id_tag).text
             except AttributeError:
@@ -133,7 +137,7 @@ class Item(MosElement):
     exposed as properties, and the XML element is provided for further
     introspection.
     """
-    def __init__(self, xml: Element, *, id: Optional[str] = None, slug: Optional[str] = None):
+    def __init__(self, xml: Element, *, id: Optional[str] = _FROM_XML, slug: Optional[str] = None):
         super().__init__(xml, id=id, slug=slug)
         self._id_tag = 'itemID'
         self._slug_tag = 'itemSlug'
@@ -203,7 +207,7 @@ class Story(MosElement):
     def __init__(self,
         xml: Element,
         *,
-        id: Optional[str] = None,
+        id: Optional[str] = _FROM_XML,
         slug: Optional[str] = None,
         duration: Optional[float] = None,
         unknown_items: bool = False,
